@@ -13,7 +13,8 @@ Verdict(r0) ==
   ELSE IF ~NestOK(r.evs, 1, <<>>) THEN "a node starts before its parent or a collection ends before it starts"
   ELSE IF r.err # <<>> /\ ~MarkOK(tab, r.t, r.err[1].at) THEN "error position is not a true position"
   ELSE IF r.err # <<>> /\ ~DisplayOK(r.err[1].words, r.err[1].at) THEN "printed error does not show the line and 1-based column"
-  ELSE IF r.marked # <<>> /\ r.marked[1] # [j \in 1..Len(NodeEvs(r.evs)) |-> <<NodeEvs(r.evs)[j].a, NodeEvs(r.evs)[j].b>>] THEN "marked node does not carry the span of the event that created it"
+  \* (when a mapping has a duplicated key a node is dropped and the lengths differ: not judged)
+  ELSE IF r.marked # <<>> /\ Len(r.marked[1]) = Len(MarkedSpans(r.evs)) /\ r.marked[1] # MarkedSpans(r.evs) THEN "marked node does not carry the span of the event that created it"
   ELSE "ok"
 Next == /\ l <= Len(Rec)
         /\ LET v == Verdict(Rec[l]) IN IF v = "ok" THEN TRUE ELSE PrintT(<<"REJECT", l, v>>)
